@@ -433,6 +433,8 @@ type Scenario struct {
 	// Cleanup runs after Final with scheduling switched off (yields are no-ops):
 	// tear down whatever would keep goroutines or timers alive.
 	Cleanup func(w *World)
+	// Post runs after the bubble has ended, on real time (e.g. a linearizability check of the recorded history).
+	Post func(w *World)
 }
 
 // AliveTask describes a registered goroutine that still exists at the end of a run.
@@ -525,6 +527,9 @@ func Run(t *testing.T, tape *Tape, cfg RunConfig, sc Scenario) (res *Result) {
 	}()
 	simhook.Yield = nil
 	simhook.ProbeFn = nil
+	if sc.Post != nil && w.abort == "" {
+		sc.Post(w)
+	}
 	res.Violations = w.viol
 	res.LogHash = w.hash
 	res.SchedSig = w.sig
